@@ -17,6 +17,16 @@ func init() {
 // genScenario builds a seeded random scenario. profile selects the family; allow lists the known-finding
 // triggers this pool may contain (the main pool contains none of them).
 func genScenario(seed int64, profile string, allow map[string]bool) *Scenario {
+	switch profile {
+	case "members":
+		return genMembers(seed, allow)
+	case "life":
+		return genLife(seed, allow)
+	case "hand":
+		return genHand(seed, allow)
+	case "kf":
+		return genKF(seed, allow)
+	}
 	r := rand.New(rand.NewSource(seed*7919 + 17))
 	sc := &Scenario{Seed: seed, Mode: []string{"ct", "ct", "cash", "mtt"}[r.Intn(4)], Rule: "default", MinPlayers: 2,
 		ActionTime: []int{0, 7, 30}[r.Intn(3)]}
@@ -187,17 +197,73 @@ func min(a, b int) int {
 	return b
 }
 
-// resolve run-time placeholders in ops
-func (d *TD) resolveOp(o Op) (Op, bool) {
-	if o.Op == "leave" && len(o.IDs) == 1 && o.IDs[0] == "@out" {
-		t := d.table()
-		for _, p := range t.State.PlayerStates {
+// resolve run-time placeholders in ops: "@out" a seated player not dealt into the current hand, "@part" one who is,
+// "@any" any seated player, "@busted" a seated player without chips, "@unknown" an id nobody has.
+func (d *TD) resolveID(id string) (string, bool) {
+	if !strings.HasPrefix(id, "@") {
+		return id, true
+	}
+	t := d.table()
+	var cands []string
+	for _, p := range t.State.PlayerStates {
+		switch id {
+		case "@out":
 			if !p.IsParticipated {
-				o.IDs = []string{p.PlayerID}
-				return o, true
+				cands = append(cands, p.PlayerID)
+			}
+		case "@part":
+			if p.IsParticipated {
+				cands = append(cands, p.PlayerID)
+			}
+		case "@any":
+			cands = append(cands, p.PlayerID)
+		case "@busted":
+			if p.Bankroll == 0 {
+				cands = append(cands, p.PlayerID)
+			}
+		case "@notin":
+			if !p.IsIn {
+				cands = append(cands, p.PlayerID)
 			}
 		}
-		return o, false
+	}
+	if id == "@unknown" {
+		return "nobody-" + fmt.Sprint(d.rng.Intn(3)), true
+	}
+	if len(cands) == 0 {
+		return "", false
+	}
+	return cands[d.rng.Intn(len(cands))], true
+}
+
+func (d *TD) resolveOp(o Op) (Op, bool) {
+	ok := true
+	if strings.HasPrefix(o.ID, "@") {
+		o.ID, ok = d.resolveID(o.ID)
+		if !ok {
+			return o, false
+		}
+	}
+	if len(o.IDs) > 0 {
+		ids := []string{}
+		for _, x := range o.IDs {
+			y, ok2 := d.resolveID(x)
+			if !ok2 {
+				return o, false
+			}
+			ids = append(ids, y)
+		}
+		o.IDs = ids
+	}
+	if o.Op == "setup" && len(o.IDs) == 1 && o.IDs[0] == "*" {
+		ids := []string{}
+		for _, p := range d.table().State.PlayerStates {
+			if p.IsIn && p.Bankroll > 0 {
+				ids = append(ids, p.PlayerID)
+			}
+		}
+		o.IDs = ids
+		o.Gc = d.table().State.GameCount + 1
 	}
 	return o, true
 }
